@@ -235,7 +235,13 @@ static void directed_case (vf_rng *r)
     if (q.src.kind == RQ_BITS && q.src.tr_class == TR_NONE && !(q.src.w == 1 && q.src.h == 1)) { if (q.sx < 0) q.sx = 0; if (q.sy < 0) q.sy = 0; q.src.w = q.sx + q.w + (int)vf_range (r, 0, 40); q.src.h = q.sy + q.h + (int)vf_range (r, 0, 2); }
     if (q.has_mask && q.mask.kind == RQ_BITS && q.mask.tr_class == TR_NONE && !(q.mask.w == 1 && q.mask.h == 1)) { if (q.mx < 0) q.mx = 0; if (q.my < 0) q.my = 0; q.mask.w = q.mx + q.w + (int)vf_range (r, 0, 40); q.mask.h = q.my + q.h + (int)vf_range (r, 0, 2); }
     if (q.pixbuf) { q.mx = q.sx; q.my = q.sy; q.mask.w = q.src.w; q.mask.h = q.src.h; }
-    if (vf_chance (r, 1, 3)) { q.dst.n_clip = (int)vf_range (r, 1, 3); for (int i = 0; i < q.dst.n_clip; i++) { int x1 = (int)vf_range (r, 0, q.dst.w - 1), y1 = (int)vf_range (r, 0, q.dst.h - 1); q.dst.clip[i].x1 = x1; q.dst.clip[i].y1 = y1; q.dst.clip[i].x2 = x1 + (int)vf_range (r, 1, q.dst.w); q.dst.clip[i].y2 = y1 + (int)vf_range (r, 1, q.dst.h); } }
+    /* whole-image copies between images of the same size and stride (a frame blitted to its back buffer): every row in full, row padding must survive */
+    int whole = 0;
+    if (!q.pixbuf && q.src.kind == RQ_BITS && q.src.tr_class == TR_NONE && !(q.src.w == 1 && q.src.h == 1) && vf_chance (r, 1, 6)) {
+        whole = 1; q.dx = q.dy = q.sx = q.sy = 0; q.w = q.dst.w; q.h = q.dst.h; q.src.w = q.dst.w; q.src.h = q.dst.h; q.src.pad = q.dst.pad = (int)vf_range (r, 0, 2); q.src.neg = q.dst.neg = 0;
+        if (q.has_mask && q.mask.kind == RQ_BITS && q.mask.tr_class == TR_NONE && !(q.mask.w == 1 && q.mask.h == 1)) { q.mx = q.my = 0; q.mask.w = q.dst.w; q.mask.h = q.dst.h; }
+        vf_count ("whole_image_requests", 1); }
+    if (!whole && vf_chance (r, 1, 3)) { q.dst.n_clip = (int)vf_range (r, 1, 3); for (int i = 0; i < q.dst.n_clip; i++) { int x1 = (int)vf_range (r, 0, q.dst.w - 1), y1 = (int)vf_range (r, 0, q.dst.h - 1); q.dst.clip[i].x1 = x1; q.dst.clip[i].y1 = y1; q.dst.clip[i].x2 = x1 + (int)vf_range (r, 1, q.dst.w); q.dst.clip[i].y2 = y1 + (int)vf_range (r, 1, q.dst.h); } }
     else q.dst.n_clip = 0;
     if (q.dst.w > GW || q.dst.h > GH) return;
     if (!rq_build (&q, r)) return;
@@ -313,6 +319,7 @@ static void shapes_case (vf_rng *r)
     rq_gen_image (r, &q.dst, 2, (direct ? RQP_SIMPLE_DEST : RQP_CLIPPY) | RQP_NO_INDEXED | RQP_NO_ALPHAMAP);
     if (direct) { static const pixman_format_code_t af[] = { PIXMAN_a8, PIXMAN_a4, PIXMAN_a1, PIXMAN_a8, PIXMAN_a8r8g8b8 }; q.dst.fmt = VF_PICK (r, af); if (kind == 3 || kind == 4 || kind == 5) { if (q.dst.fmt == PIXMAN_a8r8g8b8) q.dst.fmt = PIXMAN_a8; } }
     else if (rp_is_wide (q.dst.fmt) && vf_chance (r, 1, 2)) q.dst.fmt = PIXMAN_a8r8g8b8;
+    if (direct && vf_chance (r, 1, 3)) { q.dst.accessors = 1; vf_count ("direct_rasterisation_into_accessor_images", 1); }     /* the rasterisers are compiled a second time for images with accessors */
     rq_gen_image (r, &q.src, 0, RQP_NO_INDEXED | RQP_NO_ALPHAMAP | RQP_CLIPPY);
     if (q.dst.w > GW || q.dst.h > GH) return;
     int xs = (int)vf_range (r, -3, 6), ys = (int)vf_range (r, -3, 3), xd = (int)vf_range (r, -4, 4), yd = (int)vf_range (r, -3, 3);
